@@ -9,20 +9,31 @@ from harness import remap_engine as R
 # (class label, mode, MaxEdits, NRandom, MaxPerturb, cap per texel size or None)
 PLANS = {
     "quick": {
-        "C01": [("valid", "valid", 2, 2, 0, 9000), ("perturbed", "perturb", 1, 2, 1, 7000)],
-        "C02": [("valid", "valid", 2, 3, 0, 10000), ("valid-sim", "valid", 5, 3, 0, 2500)],
-        "C07": [("valid", "valid", 2, 3, 0, 12000), ("perturbed", "perturb", 1, 1, 1, 3000)],
+        "C01": [("valid", "valid", 2, 2, 0, 9000), ("perturbed", "perturb", 1, 2, 1, 7000), ("valid-sim", "valid", 4, 2, 0, 300, "plain", [(100, 1)]),
+                ("valid-cli", "valid", 2, 2, 0, 1200), ("perturbed-cli", "perturb", 1, 2, 1, 600), ("valid-hap-cli", "valid", 2, 2, 0, 800, "hap")],
+        "C02": [("valid", "valid", 2, 3, 0, 10000), ("valid-sim", "valid", 5, 3, 0, 2500), ("valid-sim", "valid", 4, 2, 0, 300, "plain", [(100, 1)]),
+                ("valid-cli", "valid", 2, 3, 0, 1200)],
+        "C07": [("valid", "valid", 2, 3, 0, 12000), ("perturbed", "perturb", 1, 1, 1, 3000), ("valid-sim", "valid", 4, 2, 0, 300, "plain", [(100, 1)]),
+                ("valid-cli", "valid", 2, 3, 0, 1200)],
         "C08": [("null", "null", 0, 400, 0, None)],
-        "C11": [("valid", "valid", 2, 3, 0, 12000)],
-        "C09": [("tagged", "tagged", 3, 0, 0, 7000, "plain"), ("tagged-hap", "tagged", 3, 0, 0, 7000, "hap")],
+        "C11": [("valid", "valid", 2, 3, 0, 12000), ("valid-sim", "valid", 4, 2, 0, 300, "plain", [(100, 1)]), ("valid-cli", "valid", 2, 3, 0, 2000),
+                ("valid-hap-cli", "valid", 2, 2, 0, 1500, "hap"), ("tagged-hap-cli", "tagged", 3, 0, 0, 1500, "hap")],
+        "C09": [("tagged", "tagged", 3, 0, 0, 7000, "plain"), ("tagged-hap", "tagged", 3, 0, 0, 7000, "hap"), ("tagged-cli", "tagged", 3, 0, 0, 2000, "plain"),
+                ("tagged-hap-cli", "tagged", 3, 0, 0, 2500, "hap")],
     },
     "thorough": {
-        "C01": [("valid", "valid", 2, 8, 0, 25000), ("perturbed", "perturb", 1, 4, 2, 12000), ("valid-sim", "valid", 5, 4, 0, 8000)],
-        "C02": [("valid", "valid", 2, 10, 0, 30000), ("valid-sim", "valid", 5, 4, 0, 12000)],
-        "C07": [("valid", "valid", 2, 10, 0, 30000), ("perturbed", "perturb", 1, 2, 1, 8000)],
+        "C01": [("valid", "valid", 2, 8, 0, 25000), ("perturbed", "perturb", 1, 4, 2, 12000), ("valid-sim", "valid", 5, 4, 0, 8000),
+                ("valid-sim", "valid", 4, 3, 0, 2400, "plain", [(100, 1)]), ("valid-cli", "valid", 2, 6, 0, 6000), ("perturbed-cli", "perturb", 1, 3, 1, 3000),
+                ("valid-hap-cli", "valid", 2, 4, 0, 4000, "hap")],
+        "C02": [("valid", "valid", 2, 10, 0, 30000), ("valid-sim", "valid", 5, 4, 0, 12000), ("valid-sim", "valid", 4, 3, 0, 2400, "plain", [(100, 1)]),
+                ("valid-cli", "valid", 2, 6, 0, 6000)],
+        "C07": [("valid", "valid", 2, 10, 0, 30000), ("perturbed", "perturb", 1, 2, 1, 8000), ("valid-sim", "valid", 4, 3, 0, 2400, "plain", [(100, 1)]),
+                ("valid-cli", "valid", 2, 6, 0, 6000)],
         "C08": [("null", "null", 0, 3000, 0, None)],
-        "C11": [("valid", "valid", 2, 10, 0, 30000), ("valid-sim", "valid", 5, 4, 0, 10000)],
-        "C09": [("tagged", "tagged", 3, 2, 0, 20000, "plain"), ("tagged-hap", "tagged", 3, 2, 0, 20000, "hap"), ("tagged4", "tagged", 4, 0, 0, 12000, "hap")],
+        "C11": [("valid", "valid", 2, 10, 0, 30000), ("valid-sim", "valid", 5, 4, 0, 10000), ("valid-sim", "valid", 4, 3, 0, 2400, "plain", [(100, 1)]),
+                ("valid-cli", "valid", 2, 6, 0, 8000), ("valid-hap-cli", "valid", 2, 4, 0, 6000, "hap"), ("tagged-hap-cli", "tagged", 3, 1, 0, 6000, "hap")],
+        "C09": [("tagged", "tagged", 3, 2, 0, 20000, "plain"), ("tagged-hap", "tagged", 3, 2, 0, 20000, "hap"), ("tagged4", "tagged", 4, 0, 0, 12000, "hap"),
+                ("tagged-cli", "tagged", 3, 1, 0, 8000, "plain"), ("tagged-hap-cli", "tagged", 3, 1, 0, 8000, "hap")],
     },
 }
 TEXT = {
@@ -36,7 +47,11 @@ def main_for(pid, tier, replay=None):
     rng = random.Random(C.seed())
     if replay:
         tr = json.load(open(replay))["trace"]
-        if str(tr.get("cls", "")).startswith("cli/"):
+        if tr.get("route") == "cli":
+            sc = {k: tr[k] for k in ("tn", "td", "naming", "valid", "input", "map", "haps")}
+            sc.update(tid=1, style=tr.get("style", "plain"), cls=tr["cls"].split("/", 1)[1], root=str(run.sub("cli")))
+            traces = [R.run_scenario_cli(sc)]
+        elif str(tr.get("cls", "")).startswith("cli/"):
             from harness import cli_engine
             traces = [cli_engine.cli_remap_case({"root": str(run.sub("cli")), "cfg": tr["cls"][4:], "tid": 1})]
         elif tr.get("cls") == "specimen":
@@ -53,7 +68,7 @@ def main_for(pid, tier, replay=None):
     sampled = False
     for plan in PLANS[tier][pid]:
         (label, mode, maxedits, nrandom, maxperturb, cap), style = plan[:6], (plan[6] if len(plan) > 6 else "plain")
-        for tn, td in R.TEXELS[tier]:
+        for tn, td in (plan[7] if len(plan) > 7 else R.TEXELS[tier]):
             keep = (lambda o: o["valid"] == 0) if mode == "perturb" else None
             sim = f"num={max(50, cap // 80)}" if label == "valid-sim" else None     # random edit scripts of up to maxedits gestures (TLC simulation mode)
             objs, r = R.export(run, f"pv-{label}-{tn}-{td}", tn, td, mode, maxedits, nrandom, maxperturb, cap=cap, rng=rng, keep=keep, style=style,
@@ -62,12 +77,18 @@ def main_for(pid, tier, replay=None):
                 sampled = True
             for o in objs:
                 o["cls"] = label if label != "valid-sim" else "valid"
+                if label.endswith("-cli"):
+                    o["route"] = "cli"
+                    o["root"] = str(run.sub("cli"))
             scen += objs
             exports.append({"class": label, "texel": f"{tn}/{td}", "mode": mode, "max_edits": maxedits, "random_shapes": nrandom, "max_perturb": maxperturb,
                             "model_states": r["distinct"], "model_transitions": r["generated"], "scenarios_used": len(objs), "wall_s": r["wall_s"]})
     for i, s in enumerate(scen, 1):
         s["tid"] = i
-    traces = C.pmap("harness.remap_engine", "run_scenario", scen, chunk=300)
+    traces = C.pmap("harness.remap_engine", "run_scenario", [x for x in scen if x.get("route") != "cli"], chunk=300)
+    # the same kind of scenario through the pretext-to-asm command line (files written, info yaml, log line)
+    traces += C.pmap("harness.remap_engine", "run_scenario_cli", [x for x in scen if x.get("route") == "cli"], chunk=100)
+    traces.sort(key=lambda t: t["tid"])
     # the real specimens (row-level clauses only: conservation, adjacency, statistics); the two largest are left to the thorough tier
     if pid in ("C01", "C07", "C11"):
         import glob
